@@ -232,8 +232,8 @@ def from_tauri_config(path, cwd_abs, validate=True):
     return ("some", c)
 
 
-def from_file(path, cwd_abs):
-    """GenerateConfig::from_file (serde, snake_case, every field defaulted)"""
+def from_file(path, cwd_abs, validate=True):
+    """GenerateConfig::from_file / from_file_unvalidated (serde, snake_case, every field defaulted)"""
     try:
         doc = json.loads(open(path, encoding="utf-8").read())
     except (OSError, ValueError):
@@ -254,7 +254,7 @@ def from_file(path, cwd_abs):
                 c[field] = doc[key]
             else:
                 return None
-    if c["lib"] not in ("zod", "none") or not os.path.exists(os.path.join(cwd_abs, c["p"])):
+    if validate and (c["lib"] not in ("zod", "none") or not os.path.exists(os.path.join(cwd_abs, c["p"]))):
         return None
     return c
 
@@ -265,7 +265,7 @@ def cli_effective(cwd_abs, args):
     if args.get("c"):
         # explicit file: a missing or invalid file is an error before anything else happens
         p = os.path.join(cwd_abs, args["c"])
-        got = from_file(p, cwd_abs) if os.path.exists(p) else None
+        got = from_file(p, cwd_abs, validate=False) if os.path.exists(p) else None
         if got is None:
             return None
         c = got
@@ -404,7 +404,16 @@ def reference(sb, world, cwd_abs, variant, p_str, lib, viz, cache):
     if key in cache:
         return cache[key]
     ref = sb.path("ref", "r%d" % len(cache))
-    argv = ["generate", "-p", p_str, "-o", ref, "-v", lib, "--force"] + (["--visualize-deps"] if viz else [])
+    # The settings are handed over in an explicit configuration file (-c), so that the reference does not pick up
+    # anything from tauri.conf.json candidates in the working directory that the observed run does not read
+    # (e.g. visualizeDeps written by an earlier init into src-tauri/tauri.conf.json while a build run uses defaults;
+    # visualize_deps is part of the cache record since the C08/C14 repairs).
+    os.makedirs(sb.path("ref"), exist_ok=True)
+    cfile = sb.path("ref", "cfg%d.json" % len(cache))
+    with open(cfile, "w") as f:
+        json.dump({"project_path": p_str, "output_path": ref, "validation_library": lib, "visualize_deps": bool(viz),
+                   "force": True}, f)
+    argv = ["generate", "-c", cfile]
     env = dict(vlib.ENV)
     env["TMPDIR"] = sb.path("reftmp")
     os.makedirs(env["TMPDIR"], exist_ok=True)
